@@ -379,7 +379,55 @@ pub fn fullbucket(b: u64, seed: u64, out: &mut Out) -> u64 {
         let members = |t: &dht::verif::TableSnap| -> Vec<usize> { t.nodes.iter().filter_map(|x| peer_of.get(&x.addr).cloned()).collect() };
         let answered: Vec<usize> = last_ans.iter().filter(|(_, t)| now - **t <= 15 * 60_000 * MS).map(|(p, _)| *p).collect();
         out.line(&json!({"e":"tablewatch","b":b,"t":(now - start) / MS,"main":members(&snap.routing_table),"signed":members(&snap.signed_peers_routing_table),
-            "answered":answered,"capable":(20..n).collect::<Vec<usize>>(),"bucket_capacity":20,"id":snap.id,"panicked":sim.nodes[c].panicked}));
+            "answered":answered,"capable":(20..n).collect::<Vec<usize>>(),"bucket_capacity":20,"boot_alive_ms":(now - start) / MS,"id":snap.id,"panicked":sim.nodes[c].panicked}));
+        lines += 1;
+    }
+    sim.shutdown();
+    lines
+}
+
+/// An outage: a joiner and its only bootstrap server; the server goes down at minute 11 (the joiner's table empties when the
+/// entry goes stale), and a server is back at the bootstrap address at minute 32 - between two 15-minute refreshes. Watched at
+/// every 5-minute boundary for an hour: with a reachable bootstrap node the table does not stay empty.
+pub fn outage(b: u64, seed: u64, down_min: u64, up_min: u64, out: &mut Out) -> u64 {
+    let mut sim = Sim::new(seed ^ 0x0A7A, NetCfg { lat_min_ms: 2, lat_max_ms: 6, cadence_ms: 1000, ..Default::default() });
+    sim.record = true;
+    let bip = private_ip(1);
+    let first = sim.add_node(NodeOpts::server(bip, &[]));
+    let boot = vec![format!("{bip}:6881")];
+    let j = sim.add_node(NodeOpts::server(private_ip(2), &boot));
+    let start = sim.now_ns();
+    let mut lines = 0;
+    let mut servers = vec![first];
+    let mut up_since: Option<u64> = Some(start);
+    for k in 1..=12u64 {
+        let target = start + k * 300_000 * MS;
+        for (min, what) in [(down_min, 0u8), (up_min, 1u8)] {
+            let t = start + min * 60_000 * MS;
+            if t > sim.now_ns() && t <= target {
+                let d = (t - sim.now_ns()) / MS;
+                sim.run_for(d);
+                if what == 0 {
+                    sim.crash(*servers.last().expect("server"));
+                    up_since = None;
+                } else {
+                    servers.push(sim.add_node(NodeOpts::server(bip, &[])));
+                    up_since = Some(sim.now_ns());
+                }
+            }
+        }
+        let d = (target - sim.now_ns()) / MS;
+        sim.run_for(d);
+        let now = sim.now_ns();
+        let snap = match sim.snapshot(j) {
+            Some(s) => s,
+            None => break,
+        };
+        let baddr = format!("{bip}:6881");
+        let members = |t: &dht::verif::TableSnap| -> Vec<usize> { t.nodes.iter().filter(|x| x.addr == baddr).map(|_| servers.len() - 1).collect() };
+        out.line(&json!({"e":"tablewatch","b":b,"t":(now - start) / MS,"main":members(&snap.routing_table),"signed":members(&snap.signed_peers_routing_table),
+            "answered":Vec::<usize>::new(),"capable":Vec::<usize>::new(),"bucket_capacity":20,"boot_alive_ms":up_since.map(|t| (now - t) / MS).unwrap_or(0),
+            "id":snap.id,"panicked":sim.nodes[j].panicked}));
         lines += 1;
     }
     sim.shutdown();
@@ -417,6 +465,14 @@ pub fn run(args: &Args) -> i32 {
     for (servers, hours, churn) in busies {
         if only.is_none() || only == Some(b) {
             lines += timeline(b, servers, hours, churn, seed ^ (b * 104729), &mut out, "busy");
+        }
+        b += 1;
+    }
+    // outages of the only bootstrap server that end between two refreshes
+    for (down, up) in (if thorough { vec![(11u64, 32u64), (3, 24), (12, 41), (26, 49), (11, 36)] } else { vec![(11u64, 32u64), (12, 41)] }) {
+        if only.is_none() || only == Some(b) {
+            out.line(&json!({"e":"reset","b":b,"first":-1,"servers":1}));
+            lines += 1 + outage(b, seed ^ (down * 31 + up), down, up, &mut out);
         }
         b += 1;
     }
